@@ -376,6 +376,7 @@ type histResult struct {
 	findings []finding
 	timeouts []string
 	closeEvs []string // close event kinds mosn reported for the connections of this history
+	family   string
 }
 
 func (h *histResult) key() string {
@@ -501,7 +502,7 @@ func c09(args []string) int {
 	if len(os.Getenv("VH_POOL_PROBE")) > 0 {
 		return c09probe(run)
 	}
-	run.Sum.Rule = "histories of pool operations {new stream (connect ok / connection refused / dial time-out / lease without sending), send, response, response with Connection: close, local reset, remote reset, connection close with every close event kind (upstream FIN = RemoteClose, upstream RST = OnReadErrClose, mosn-side LocalClose / OnReadErrClose / OnWriteErrClose / OnWriteTimeout; idle and leased connections), go-away frame, pool Shutdown, external holder of the cluster's Requests resource +/-} against one real pool (HTTP/1 and xprotocol ping-pong) over loopback TCP, max_connections and max_requests in {0,1,2}; exhaustive part: every sequence of ENABLED operations up to the stated depth (stateless DFS), random part: longer histories; books read after every op; a history is non-trivial when it leases at least one stream and contains at least one op other than new/response; distinct by (pool kind, limits, op sequence). Multiplex pool (one slot): histories of {CheckAndInit with dial ok / refused (init goroutine run to completion), NewStream, response, local reset, connection close of every kind, go-away frame, Shutdown, external Requests holder}, exhaustive over the enabled ops to depth 5 (7 thorough) for max_requests in {0,1,2} plus random histories of 8-30(40) ops; every op under a 4 s watchdog (a call that never returns is a finding)."
+	run.Sum.Rule = "histories of pool operations {new stream (connect ok / connection refused / dial time-out / lease without sending), send, response, response with Connection: close, local reset, remote reset, connection close with every close event kind (upstream FIN = RemoteClose, upstream RST = OnReadErrClose, mosn-side LocalClose / OnReadErrClose / OnWriteErrClose / OnWriteTimeout; idle and leased connections), go-away frame, pool Shutdown, external holder of the cluster's Requests resource +/-} against one real pool (HTTP/1 and xprotocol ping-pong) over loopback TCP, max_connections and max_requests in {0,1,2}; exhaustive part: every sequence of ENABLED operations up to the stated depth (stateless DFS), family idle-close: k in 2..4 concurrent leases answered in every order, then the idle connections closed in every order with every close kind, then k new streams (max_connections 0 and k); random part: longer histories, with a bias that lets several connections become idle at once; books read after every op; a history is non-trivial when it leases at least one stream and contains at least one op other than new/response; distinct by (pool kind, limits, op sequence). Multiplex pool (one slot): histories of {CheckAndInit with dial ok / refused (init goroutine run to completion), NewStream, response, local reset, connection close of every kind, go-away frame, Shutdown, external Requests holder}, exhaustive over the enabled ops to depth 5 (7 thorough) for max_requests in {0,1,2} plus random histories of 8-30(40) ops; every op under a 4 s watchdog (a call that never returns is a finding)."
 
 	var cfgs []poolCfg
 	for _, k := range []poolKind{kHTTP1, kPingPong} {
@@ -551,6 +552,47 @@ func c09(args []string) int {
 		}
 		addExhaustive(c, d)
 	}
+	// family "idle-close": k concurrent leases (k connections), all answered in EVERY order (so k connections are idle at
+	// once, in every idle-list order), then the idle connections are closed in EVERY order with every close kind, then k
+	// new streams; books and the finder run after every op, capacity probe at the end
+	closeKinds := []string{"closer", "closerst", "closel", "closereaderr", "closewerr", "closewto"}
+	for _, kind := range []poolKind{kHTTP1, kPingPong} {
+		for k := 2; k <= 4; k++ {
+			perms := permutations(k)
+			for ai, ansOrder := range perms {
+				for ci, closeOrder := range perms {
+					if k == 4 && !run.Thorough() && (ai*len(perms)+ci)%6 != int(run.Seed%6) {
+						continue // quick tier: a sixth of the 576 order pairs for k = 4 (chosen by the seed), all of them in thorough
+					}
+					for _, mc := range []uint64{0, uint64(k)} {
+						var ops []op
+						for i := 0; i < k; i++ {
+							ops = append(ops, op{K: "new"})
+						}
+						for _, i := range ansOrder {
+							ops = append(ops, op{"resp", i})
+						}
+						nclose := k
+						if (ai+ci)%3 == 2 {
+							nclose = k - 1 // leave one idle connection alive
+						}
+						for j, i := range closeOrder[:nclose] {
+							ops = append(ops, op{closeKinds[(ai+ci+j+int(mc))%len(closeKinds)], i})
+						}
+						for i := 0; i < k; i++ {
+							ops = append(ops, op{K: "new"})
+						}
+						kind, mc, ops := kind, mc, ops
+						jobs = append(jobs, func() {
+							h := runOps(kind, mc, 0, ops, true)
+							h.family = "idle-close"
+							collect(h)
+						})
+					}
+				}
+			}
+		}
+	}
 	// random part: longer histories, all op kinds incl. lease-without-send
 	nrand := run.N(1500, 20000)
 	rlen := run.N(30, 40)
@@ -564,7 +606,22 @@ func c09(args []string) int {
 			r := NewRng(seeds[i])
 			c := cfgs[r.Intn(len(cfgs))]
 			n := 8 + r.Intn(rlen-7)
+			burst := r.Pct(35) // burst mode: lease several streams first, then prefer responses and closes of idle connections
 			h := runHistory(c.kind, c.maxConn, c.maxReq, n, true, true, func(step int, en []op) *op {
+				if burst {
+					if step < 2+int(seeds[i]%3) {
+						return &en[0]
+					}
+					var pref []int
+					for j, o := range en {
+						if o.K == "resp" || (strings.HasPrefix(o.K, "close") && r.Pct(60)) {
+							pref = append(pref, j)
+						}
+					}
+					if len(pref) > 0 && r.Pct(70) {
+						return &en[pref[r.Intn(len(pref))]]
+					}
+				}
 				// bias towards new streams and responses so that pools fill up and drain
 				if r.Pct(25) {
 					return &en[0]
@@ -615,7 +672,11 @@ func c09(args []string) int {
 		for _, e := range h.closeEvs {
 			run.Sum.Distribution["close-event:"+e]++
 		}
-		run.Count(h.key(), nontrivial && leased, "pool:"+h.kind.String(), fmt.Sprintf("len=%d", len(h.ops)))
+		fam := h.family
+		if fam == "" {
+			fam = "exhaustive-or-random"
+		}
+		run.Count(h.key(), nontrivial && leased, "pool:"+h.kind.String(), fmt.Sprintf("len=%d", len(h.ops)), "family:"+fam)
 		if len(h.timeouts) > 0 {
 			ntimeouts++
 			run.Sum.Distribution["wait-expired"]++
